@@ -23,7 +23,7 @@ INF = math.inf
 
 class Glue(Harness):
     name = "glue"
-    serves = ("C01",)
+    serves = ("C01", "C18")
     functions = ("cobyqa/models.py:Interpolation.__init__", "cobyqa/framework.py:TrustRegion.get_trust_region_step",
                  "cobyqa/framework.py:TrustRegion.get_second_order_correction_step",
                  "cobyqa/framework.py:TrustRegion.get_geometry_step",
@@ -39,6 +39,8 @@ class Glue(Harness):
         return dict(timeout_ms=8000)
 
     def shapes(self, tier, prop=None):
+        if prop == "C18":
+            return [dict(kind="init", n=1, npt=2), dict(kind="init", n=2, npt=3)]
         S = [dict(kind="init", n=1, npt=2), dict(kind="init", n=1, npt=3), dict(kind="init", n=2, npt=3),
              dict(kind="init", n=2, npt=5),
              dict(kind="trstep", n=1, cons=False), dict(kind="trstep", n=1, cons=True), dict(kind="soc", n=1),
@@ -220,6 +222,8 @@ class Glue(Harness):
             C("initial_interpolation_points_inside_the_box", all_of(inside(p) for p in o["points"]))
             r0, rend, rho = o["rho"]
             C("initial_radius_only_reduced_and_final_below_it", b_and(lift(r0) <= rho, lift(rend) <= r0, lift(r0) > 0.0))
+            claims.append(Claim("C18", "glue:radius_final_le_initial_resolution_after_fitting_to_the_box",
+                                b_and(lift(rend) <= r0, lift(rend) >= 0.0, lift(r0) > 0.0), sig=sig))
             return claims, goals
         if kind == "trstep":
             C("trust_region_trial_point_inside_the_box", inside(o["trial"]))
@@ -231,6 +235,8 @@ class Glue(Harness):
         return claims, goals
 
     def required_goals(self, tier, prop):
+        if prop == "C18":
+            return ["glue_init"]
         return ["glue_init", "glue_trstep", "glue_soc", "glue_geo"]
 
     def digest(self, ctx, shape, o):
